@@ -196,22 +196,10 @@ func (d *driver) minimise(path, want string) string {
 
 // ---- evidence -------------------------------------------------------------------------
 
-var levels = map[string][2]string{
-	"C03": {"exploration", "fault_enumeration"},
-	"C08": {"exploration", "fault_enumeration"},
-	"C15": {"exploration", "fault_enumeration"},
-	"C18": {"exploration", "fault_enumeration"},
-}
-
-func (d *driver) level() string {
-	if l, ok := levels[d.prop]; ok {
-		if d.tier == "thorough" {
-			return l[1]
-		}
-		return l[0]
-	}
-	return "exploration"
-}
+// Every check reports the level claimed in MANIFEST.json (exploration): the
+// thorough tiers sweep fault positions / instants systematically but still
+// sample schedules, which is search, not enumeration of a closed space.
+func (d *driver) level() string { return "exploration" }
 
 func sortedKV(m map[string]int) map[string]int { return m }
 
